@@ -46,7 +46,8 @@ def gen_numeric_table(rng):
     nkeys = rng.choice([1, 1, 2])
     nvals = rng.choice([1, 2, 3])
     kvals = [rng.sample(KEYS, rng.randrange(1, 6)) for _ in range(nkeys)]
-    kinds = [rng.choice(['int', 'int', 'float', 'mixed', 'zeros']) for _ in range(nvals)]
+    # numeric strings (what CSV sources deliver) and, in a quarter of the columns, native numbers (what list / pandas / sqlite sources deliver)
+    kinds = [rng.choice(['int', 'int', 'float', 'mixed', 'zeros', 'int', 'float', 'mixed', 'zeros', 'nint', 'nfloat', 'nmixed']) for _ in range(nvals)]
     A = []
     for r in range(nrows):
         rec = [rng.choice(kv) for kv in kvals]
@@ -57,6 +58,12 @@ def gen_numeric_table(rng):
                 rec.append(rng.choice(FLOATS))
             elif kd == 'zeros':
                 rec.append(rng.choice(['0', '0', '0', '5', '-5']))
+            elif kd == 'nint':
+                rec.append(int(rng.choice(INTS)))
+            elif kd == 'nfloat':
+                rec.append(float(rng.choice(FLOATS)))
+            elif kd == 'nmixed':
+                rec.append(int(rng.choice(INTS)) if r < nrows // 2 or rng.random() < 0.3 else float(rng.choice(FLOATS)))
             else:
                 rec.append(rng.choice(INTS) if r < nrows // 2 or rng.random() < 0.3 else rng.choice(FLOATS))
         A.append(rec)
